@@ -65,7 +65,7 @@ def jobs():
     for l, c in asserts: b += A(l, c)
     mk('read_waitpred', b, len(asserts) + 1, ['ObjectQueue::read wait predicate'])
     # ---- write
-    b = '    __CPROVER_assume(obj != 0 && SIZE(q) < 0xffffffffull);   /* fewer than 2^32 queued objects (memory bound) */\n    ObjectQueue_write(&q, obj);\n'
+    b = '    __CPROVER_assume(obj != 0 && SIZE(q) < 0xffffffffull && q.m_queue.tail_seq < ((uint64_t)1 << 62));   /* fewer than 2^32 queued objects (memory bound) */\n    ObjectQueue_write(&q, obj);\n'
     asserts = [
         ('write/appends-exactly-one-element-at-the-tail', 'q.m_queue.tail_seq == o.m_queue.tail_seq + 1 && q.m_queue.head_seq == o.m_queue.head_seq'),
         ('write/the-appended-element-is-the-argument-(FIFO-at-J)', 'o.m_queue.tail_seq != VB_J || q.m_queue.at_J == obj'),
